@@ -99,7 +99,7 @@ def run(ctx, rep):
     lb = rule_loader_checks(ctx, rep, 'R11.d')
 
     # ------------------------------------------------------------ R11.e checksum covers every serialised field
-    rep.rule('R11.e', 'the checksum covers every serialised field: each parameter of calculate_checksum flows into the hashed buffer; apply hashes the clear command before encrypting; the loader hashes the decrypted command', floor=3, analysis='A9')
+    rep.rule('R11.e', 'the checksum covers every serialised field: each parameter of calculate_checksum flows into the hashed buffer; apply hashes the clear command before encrypting; the loader hashes the decrypted command', floor=5, analysis='A9')
     cb = ctx.fn_body('server::state::entry::StateEntry::calculate_checksum')
     rec = ctx.fn_record('server::state::entry::StateEntry::calculate_checksum')
     if rec is None:
@@ -123,6 +123,20 @@ def run(ctx, rep):
         missing = [p for p in params if p not in used]
         rep.ob('R11.e', 'server::state::entry::StateEntry::calculate_checksum', 'params-hashed', not missing and len(params) >= 9, None,
                'all %d parameters flow into the hashed buffer' % len(params) if not missing else 'parameters never written to the hashed buffer: %s' % missing)
+    # what is written into the hashed buffer, in order, is what the entry serialises (minus the checksum itself)
+    import wire as wire_
+    CK = 'server::state::entry::StateEntry::calculate_checksum'
+    TB = '<server::state::entry::StateEntry as iggy::bytes_serializable::BytesSerializable>::to_bytes'
+    if ctx.has(CK) and ctx.has(TB):
+        hashed_seq = wire_.named_writer(ctx, CK)
+        stored_seq = wire_.named_writer(ctx, TB)
+        want = ['index', 'term', 'leader_id', 'version', 'flags', 'timestamp', 'user_id', 'context', 'context', 'command']
+        ok = hashed_seq == want
+        rep.ob('R11.e', CK, 'hashed sequence', ok, None, ' '.join(hashed_seq) if ok else 'the bytes the checksum is computed over are now %s (confirmed: %s): a field left out can be changed in the file without detection' % (hashed_seq, want))
+        ok = [x for x in stored_seq if x != 'checksum'] == hashed_seq
+        rep.ob('R11.e', TB, 'stored sequence = hashed sequence + checksum', ok, None, ' '.join(stored_seq) if ok else 'the entry is serialised as %s but the checksum covers %s' % (stored_seq, hashed_seq))
+    else:
+        rep.anchor_lost('R11.e', 'StateEntry::calculate_checksum / to_bytes')
     # apply: checksum call dominates encrypt and takes the command before reassignment
     ab = ctx.fn_body(FILESTATE_APPLY)
     cks = ab.find_calls('server::state::entry::StateEntry::calculate_checksum')
